@@ -297,6 +297,13 @@ func runProperty(p *Prop, repo, tier string) int {
 	vacuous := len(res.Obs) < p.MinObs
 	failed := res.Err != "" || nBad > 0 || nUnd > 0 || vacuous || ctl.Failed > 0 || survived > 0
 
+	if f := os.Getenv("VERIF_ALLOBS"); f != "" { // debugging aid: list every obligation whose key contains f
+		for _, o := range res.Obs {
+			if f == "1" || strings.Contains(o.Key, f) {
+				fmt.Printf("  OB %v %s : %s\n", o.st, o.Key, o.Detail)
+			}
+		}
+	}
 	// samples: a few obligations of each status
 	var samples []any
 	perRule := map[string]int{}
